@@ -1100,6 +1100,11 @@ func (broker *Broker) startTrack(wg *sync.WaitGroup) {
 				// If the Q is still not empty, don't block when looking for a
 				// new payload to receive
 				wait = time.After(time.Second)
+			} else if in == nil {
+				// The last files were just handed off and the input channel is
+				// already closed: nothing more can arrive, so we're done
+				// (otherwise we'd block forever on two nil channels below)
+				return
 			}
 		}
 		payload = nil
